@@ -156,7 +156,12 @@ func SolveAll(obls []*Obligation, opts SolveOpts) []Result {
 			if o.Canary && to > 4 {
 				to = 4 // a canary only has to *fail to be proved*; contradictions show up fast
 			}
-			st, sv, out, ms := runSolvers(q, opts.Solvers, to, opts.Workdir, fmt.Sprintf("q%d", i))
+			svs := opts.Solvers
+			if o.Kind == "path" {
+				svs = []string{"z3-em"} // contradictions among assumptions show up by E-matching at once
+				to = 3
+			}
+			st, sv, out, ms := runSolvers(q, svs, to, opts.Workdir, fmt.Sprintf("q%d", i))
 			r := Result{Name: o.Name, Kind: o.Kind, Fn: o.Fn, Status: st, Solver: sv, Ms: ms, Output: out, Canary: o.Canary, Pos: o.Pos, Text: o.Text, Query: q}
 			if st == "sat" {
 				r.Model = out
